@@ -2,6 +2,9 @@
 from .common import *  # noqa
 
 KEYS = {"comps", "flows", "ntimes", "initial_population"}
+# observations whose model value is the property's specified value (a disagreement there is a failing input);
+# on the others the correspondence supports the tie and the oracle searches for the failing input
+SPEC_KEYS = {"comps", "flows", "ntimes", "build"}
 
 # a known finding that the check has to exhibit on every run: compartments are compared by their
 # serialised string, so an original name containing "X" can collide with a stratified name
